@@ -6,6 +6,7 @@ import (
 	"fmt"
 	"os"
 	"path/filepath"
+	"regexp"
 	"runtime"
 	"sort"
 	"strconv"
@@ -76,7 +77,7 @@ func judge(h *harness, e *vsched.Execution, o *obs) []string {
 			if i := strings.Index(op, " @"); i >= 0 {
 				op = op[:i]
 			}
-			parts = append(parts, base+" blocked in "+op)
+			parts = append(parts, base+" blocked in "+addrRe.ReplaceAllString(op, ""))
 		}
 		sort.Strings(parts)
 		sigs = append(sigs, "deadlock:"+strings.Join(parts, "; "))
@@ -108,6 +109,9 @@ func judge(h *harness, e *vsched.Execution, o *obs) []string {
 	}
 	return sigs
 }
+
+// addresses are run-specific detail, not part of a defect class
+var addrRe = regexp.MustCompile(` ?\d+\.\d+\.\d+\.\d+:\d+((->|<-|-)\d+\.\d+\.\d+\.\d+:\d+)?`)
 
 func contains(l []string, s string) bool {
 	for _, x := range l {
@@ -412,15 +416,19 @@ func jobs(quick bool) []job {
 	}
 	if quick {
 		add("S1", 5, 0, 1, 2, 3)
+		add("S8", 5, 0, 1, 2)
 		add("S2", 15, 0, 1, 2)
-		add("S4", 15, 0, 1, 2)
-		add("S3a", 12, 0, 1)
-		add("S3b", 12, 0, 1)
-		add("S3c", 12, 0, 1)
-		add("S3", 25, 0)
+		add("S4", 10, 0, 1)
+		add("S3a", 8, 0, 1)
+		add("S3b", 8, 0, 1)
+		add("S3c", 8, 0, 1)
+		add("S6", 8, 0)
+		add("S3", 12, 0)
+		add("S4", 15, 2)
 		return out
 	}
 	add("S1", 10, 0, 1, 2, 3)
+	add("S8", 10, 0, 1, 2, 3)
 	add("S2", 60, 0, 1, 2, 3)
 	add("S4", 90, 0, 1, 2, 3)
 	add("S3a", 120, 0, 1, 2)
@@ -804,6 +812,7 @@ func report(r *engine.Run, plan []tierPlan, results map[string][]*harnessResult)
 	hist := map[string]int64{}
 	maxG, maxSteps := 0, 0
 	seenSig := map[string]bool{}
+	notRun := []string{}
 	for _, p := range plan {
 		h := harnessByName(p.harness)
 		var rows []interface{}
@@ -889,6 +898,14 @@ func report(r *engine.Run, plan []tierPlan, results map[string][]*harnessResult)
 				nt = res.Traces
 			}
 		}
+		ran := int64(0)
+		for _, res := range results[p.harness] {
+			ran += res.Stats.Executions
+		}
+		if ran == 0 {
+			notRun = append(notRun, p.harness)
+			continue // no time left for this harness: reported, not judged
+		}
 		if nt < 2 {
 			r.Broken("vacuous: harness %s produced %d distinct trace(s)", p.harness, nt)
 		}
@@ -901,6 +918,7 @@ func report(r *engine.Run, plan []tierPlan, results map[string][]*harnessResult)
 			r.Broken("vacuous: harness %s never interleaved %s with %s", p.harness, h.Overlap2[0], h.Overlap2[1])
 		}
 	}
+	cov["harnesses_not_run_for_lack_of_time"] = notRun
 	cov["evaluations"] = evals
 	cov["distinct_nontrivial"] = len(allNontriv)
 	cov["distinct_traces"] = len(allTraces)
